@@ -43,7 +43,7 @@ def classify(c):
     got = c.impl.split(";")
     lines = (c.extra or {}).get("lines", [])
     for i, (w, g) in enumerate(zip(want, got)):
-        if w != "-" and w != g:
+        if w != "-" and w != g and not (w.endswith("*") and g.startswith(w[:-1])):
             # a name defined by the unexecuted tail of an earlier line that failed at run time
             earlier_tail = any(TAIL_DEF in l for l in lines[:i])
             if earlier_tail and w.startswith("ok") and g.startswith("rt"):
@@ -71,6 +71,10 @@ def gen_line(rng, defined, fns):
         m = rng.choice(sorted(defined))
         defined.add(n)
         return f"let {n} = {m} * 10 + {rng.randint(0, 9)}; puts(\"@@O \", {n});"
+    if r < 0.36 and defined:
+        # a bare expression: the REPL echoes its value unless it is null (0 and false are echoed)
+        m = rng.choice(sorted(defined))
+        return rng.choice([f"{m}", f"{m} - {m}", f"{m} > 100", f"{m} + 1", f"{m} == {m}", "0", "false", "null", f"puts(\"@@O \", {m}); {m} * 0"])
     if r < 0.42 and defined:
         m = rng.choice(sorted(defined))
         return f"puts(\"@@O \", {m} + 1);"
@@ -153,7 +157,7 @@ def run_one(exe, c):
     lines = c.extra["lines"]
     text = ""
     for l in lines:
-        text += l + "\n" + 'println("@@M"); eprintln("@@M");' + "\n"
+        text += l + "\n" + 'println("@@M"); eprintln("@@M"); null' + "\n"      # the marker line's own value is null: no echo
     try:
         p = subprocess.run([exe], input=text.encode("utf-8"), stdout=subprocess.PIPE, stderr=subprocess.PIPE, timeout=30)
     except subprocess.TimeoutExpired:
@@ -170,6 +174,8 @@ def run_one(exe, c):
         o = osegs[i] if i < len(osegs) else ""
         e = esegs[i] if i < len(esegs) else ""
         prog = "".join(l + "\n" for l in o.split("\n") if l.startswith("@@O "))
+        # the REPL's echo of the line's value (the banner precedes the first line's output)
+        echo = "".join(l + "\n" for l in o.split("\n") if l and not l.startswith("@@O ") and not (i == 0 and l.startswith(("The p2sh Programming language", "Type quit"))))
         if "parse errors" in e:
             res.append("perr")
         elif "compile error" in e:
@@ -177,7 +183,7 @@ def run_one(exe, c):
         elif "Runtime error" in e:
             res.append("rt:" + hx(prog))
         else:
-            res.append("ok:" + hx(prog))
+            res.append("ok:" + hx(prog) + ":e=" + hx(echo))
     return ";".join(res)
 
 
